@@ -88,6 +88,9 @@ type Ctl struct {
 	FreeRun bool
 	// Yield is called at gates in FreeRun mode (e.g. runtime.Gosched or a tiny sleep).
 	Yield func(key string)
+	// Offer (optional) decides at every step whether a pending event is offered as a choice,
+	// given the gates parked at that step (e.g. "advance the clock" only while a load is in flight).
+	Offer func(event Parked, gates []Parked) bool
 }
 
 // New creates a controller for nOps operations.
@@ -311,6 +314,21 @@ func (c *Ctl) Run(start func(i int), schedule []int, observe func(View), maxStep
 			}
 			return gates[i].seq < gates[j].seq
 		})
+		if c.Offer != nil {
+			var real []Parked
+			for _, g := range gates {
+				if !g.event {
+					real = append(real, Parked{Key: g.key, Op: g.op})
+				}
+			}
+			kept := gates[:0:0]
+			for _, g := range gates {
+				if !g.event || c.Offer(Parked{Key: g.key, Op: g.op, Event: true}, real) {
+					kept = append(kept, g)
+				}
+			}
+			gates = kept
+		}
 		var keys []string
 		hasStart := next < len(c.ops)
 		if hasStart {
